@@ -178,12 +178,59 @@ def lean_audit(theorems: list[str], imports=("HapModel",), timeout=900):
         else:
             res[t] = {"ok": False, "axioms": None, "msg": "theorem not found / did not check"}
     if r.returncode == 0 or all(v["ok"] for v in res.values()):
-        cache = {key: res}  # keep only the current key
+        cache = {k: v for k, v in cache.items() if k.startswith(lean_source_hash() + ":")}  # drop entries of older sources
+        cache[key] = res
         try:
             cache_f.write_text(json.dumps(cache))
         except Exception:
             pass
     return res
+
+
+def lean_modules_of(pid: str, imports=("HapModel",)) -> list[str]:
+    """the property module and every HapModel.* module it (transitively) imports"""
+    roots = [f"HapModel.Props.{pid}"] + (["HapModel.Real.PropsReal"] if "HapReal" in imports else [])
+    seen, todo = [], list(roots)
+    while todo:
+        m = todo.pop()
+        if m in seen:
+            continue
+        f = LEAN / (m.replace(".", "/") + ".lean")
+        if not f.exists():
+            continue
+        seen.append(m)
+        for line in f.read_text().splitlines():
+            mm = re.match(r"import (HapModel\.[\w.]+)", line)
+            if mm:
+                todo.append(mm.group(1))
+    return sorted(seen)
+
+
+def lean_recheck(pid: str, imports=("HapModel",), timeout=3000):
+    """thorough tier: leanchecker (the toolchain's independent re-checker of .olean files) replays every declaration of
+    the property's modules through the kernel.  Returns (ok, modules, message); cached on the Lean source hash."""
+    mods = lean_modules_of(pid, imports)
+    cache_f = LEAN / ".lake" / "recheck_cache.json"
+    key = lean_source_hash() + ":" + ",".join(mods)
+    try:
+        cache = json.loads(cache_f.read_text())
+    except Exception:
+        cache = {}
+    if cache.get(key) is True:
+        return True, mods, "cached"
+    try:
+        r = subprocess.run(["lake", "env", "leanchecker", *mods], cwd=LEAN, capture_output=True, text=True, timeout=timeout)
+    except subprocess.TimeoutExpired:
+        raise Infra("leanchecker timed out")
+    ok = r.returncode == 0
+    if ok:
+        cache = {k: v for k, v in cache.items() if k.startswith(lean_source_hash() + ":")}
+        cache[key] = True
+        try:
+            cache_f.write_text(json.dumps(cache))
+        except Exception:
+            pass
+    return ok, mods, (r.stdout + r.stderr)[-400:]
 
 
 # --------------------------------------------------------------------------------------------
